@@ -41,7 +41,8 @@ def main():
         signal.signal(signal.SIGTERM, lambda s, f: rec("term_ignored"))
 
     rec("start", argv=sys.argv[3:], cwd=os.getcwd(), env={k: v for k, v in os.environ.items() if k.startswith("COND_")},
-        listing=listing, out_isdir=(os.path.isdir(out) if out else None), out_isabs=(os.path.isabs(out) if out else None))
+        listing=listing, out_isdir=(os.path.isdir(out) if out else None), out_isabs=(os.path.isabs(out) if out else None),
+        deps_isdir=[os.path.isdir(p) for p in os.environ.get("COND_DEPS", "").split(":") if p])
 
     for step in script.get("steps", []):
         op = step[0]
